@@ -140,7 +140,8 @@ def make_doc(rnd, mode, want_allow, path, caller, n):
 PATHS = ["/machine", "/machine/plugins", "/metadata/instance", "/metadata/identity/oauth2/token", "/Secret/Area",
          "/a", "/vmSettings", "/extensionArtifact"]
 QUERIES = ["", "", "?comp=goalstate", "?api-version=2021-02-01&format=json", "?comp=config&type=hosting&keyOnly"]
-NEAR_EXEMPT = [("GET", "/vmagentlog"), ("PUT", "/vmagentlog?x=1"), ("POST", "/machine?comp=telemetrydata"),
+NEAR_EXEMPT = [("POST", "/vmAgentLog"), ("GET", "/machine/?comp=telemetrydata"), ("PUT", "/machine/?comp=telemetrydata"),
+               ("GET", "/vmagentlog"), ("PUT", "/vmagentlog?x=1"), ("POST", "/machine?comp=telemetrydata"),
                ("PUT", "/vmagentlog/"), ("POST", "/machine/?comp=telemetrydata&x=1"), ("DELETE", "/machine/?comp=telemetrydata")]
 
 
@@ -182,8 +183,8 @@ def concretize(case, rnd, n, harness_exe, thorough, session=None):
                 blen, declared = 64, LARGE + rnd.choice([1, 2, 4096])   # refused on the declared length alone
             else:
                 blen = LARGE + 1
-                if not thorough or rnd.random() > 0.02:
-                    skip = "100 MiB chunked body only sampled in the thorough tier"
+                if n % 997 != 3 and (not thorough or rnd.random() > 0.02):
+                    skip = "100 MiB chunked bodies are sampled (a few per run)"
         else:
             blen = LOW + rnd.choice([1, 1, 2, 1000, 100000])
     else:
@@ -406,8 +407,26 @@ def observe(events, metas):
 # ------------------------------------------------------------------------------------------------
 # the cached pipeline run
 
+def _machinery_hash():
+    """the pipeline's own sources: a cached run made by older machinery is never reused"""
+    import hashlib
+    h = hashlib.sha256()
+    roots = [os.path.join(util.VERIF, "checks", "proxylib.py"), os.path.join(util.VERIF, "lib", "vlib"),
+             os.path.join(util.VERIF, "harness", "agent", "src"), os.path.join(util.VERIF, "spec")]
+    for r in roots:
+        files = [r] if os.path.isfile(r) else sorted(
+            os.path.join(dp, f) for dp, _, fs in os.walk(r) for f in fs
+            if f.endswith((".py", ".rs", ".tla", ".cfg")))
+        for f in files:
+            try:
+                h.update(f.encode() + b"\0" + open(f, "rb").read())
+            except OSError:
+                pass
+    return h.hexdigest()
+
+
 def _cache_path(c):
-    h = util.repo_tree_hash()[:16]
+    h = util.repo_tree_hash()[:16] + "_" + _machinery_hash()[:12]
     d = os.path.join(util.BUILD, "cache")
     os.makedirs(d, exist_ok=True)
     return os.path.join(d, "proxy_%s_%s_%d.json" % (h, c.tier, c.seed))
